@@ -70,9 +70,41 @@ def one(tid, rng):
         so = float(probe.score(X, y, sample_weight=sw))
     s = float(numpy.ravel(m.coef_)[0])
     c = float(numpy.ravel(m.intercept_)[0]) if numpy.ndim(m.intercept_) else float(m.intercept_)
+    # the same data set in another representation is a data set too: an integer-typed design with fractional targets,
+    # a feature in small units (x * 2^-13).  The optimum is the same (up to the unit), and the fit validated by the
+    # specification is within the stated tolerance of it: so must these be.
+    extra = []
+    if max_iter == 100 and not positive and not outliers and mode != "dup":
+        sw2 = None if sw is None else sw
+        y8 = y / 8.0
+
+        def loss_of(mod, Xa):
+            with warnings.catch_warnings():
+                warnings.simplefilter("ignore")
+                return float(mod.score(Xa, y8, sample_weight=sw2))
+
+        def fitted(Xa):
+            mod = QuantileLinearRegression(quantile=qa / qb, max_iter=100, fit_intercept=fit_intercept, delta=delta)
+            with warnings.catch_warnings():
+                warnings.simplefilter("ignore")
+                mod.fit(Xa, y8, sample_weight=sw2)
+            return mod
+        try:
+            ref = loss_of(fitted(X), X)
+            Xi = X.astype(rng.choice([numpy.int64, numpy.int32]))
+            li = loss_of(fitted(Xi), X)
+            if not li <= 1.02 * ref + 0.004:
+                extra.append(("NearOptimal", "integer-typed design, fractional targets: loss %.5f, float design %.5f" % (li, ref)))
+            Xs = X * 2.0 ** -13
+            ls = loss_of(fitted(Xs), Xs)
+            if not ls <= 1.02 * ref + 0.004:
+                extra.append(("NearOptimal", "feature in units of 2^-13: loss %.5f, in units of 1: %.5f" % (ls, ref)))
+        except Exception as e:           # noqa: BLE001
+            extra.append(("FitSucceeds", "%s: %s" % (type(e).__name__, str(e)[:160])))
     return dict(id=tid, X=xs, Y=ys, W=ws, qa=qa, qb=qb, fit_intercept=fit_intercept, positive=positive, full=max_iter == 100 and not outliers, outliers=outliers,
                 s=int(round(s * 100)), c=int(round(c * 100)), score=int(round(sc * 100)), score_other=int(round(so * 100)),
-                site=SITE, sig="q=%d/%d %s intercept=%s positive=%s" % (qa, qb, mode, fit_intercept, positive) + (" outliers" if outliers else ""), mode=mode)
+                site=SITE, sig="q=%d/%d %s intercept=%s positive=%s" % (qa, qb, mode, fit_intercept, positive) + (" outliers" if outliers else ""), mode=mode,
+                extra=extra)
 
 
 def classify(t, v):
@@ -98,6 +130,8 @@ def run(ctx):
             continue
         ctx.case((tuple(t["X"]), tuple(t["Y"]), tuple(t["W"]), t["qa"], t["qb"], t["fit_intercept"], t["positive"], t["mode"]),
                  sample={k2: t[k2] for k2 in ("X", "Y", "W", "qa", "qb", "s", "c", "score", "mode")})
+        for clause, detail in t.pop("extra"):
+            ctx.violation(clause, SITE, ("q=1/2 " if t["qa"] * 2 == t["qb"] else "q!=1/2 ") + "representation", detail, case=t)
         traces.append(t)
     verdicts, st = tlc.validate("PinballTrace", "PinballTrace.cfg", traces, timeout=3000)
     ctx.states += st["states"]
